@@ -28,7 +28,9 @@ type rangeAggIterator struct {
 	// window state
 	window   map[GroupingKey]Series
 	interval time.Duration
-	entry    SampledEntry
+	// offset shifts the window back in time: at evaluation time T the window is [T-offset-interval, T-offset].
+	offset time.Duration
+	entry  SampledEntry
 	// buffered whether last entry is buffered
 	buffered bool
 }
@@ -47,6 +49,11 @@ func RangeAggregation(
 	agg, err := buildBatchAggregator(expr)
 	if err != nil {
 		return nil, errors.Wrap(err, "build aggregator")
+	}
+
+	var offset time.Duration
+	if o := expr.Range.Offset; o != nil {
+		offset = o.Duration
 	}
 
 	var (
@@ -73,6 +80,7 @@ func RangeAggregation(
 
 		window:   map[GroupingKey]Series{},
 		interval: expr.Range.Range,
+		offset:   offset,
 	}, nil
 }
 
@@ -83,8 +91,8 @@ func (i *rangeAggIterator) Next(r *Step) bool {
 	}
 
 	// Fill the window.
-	windowStart := current.Add(-i.interval)
-	windowEnd := current
+	windowEnd := current.Add(-i.offset)
+	windowStart := windowEnd.Add(-i.interval)
 	i.fillWindow(windowStart, windowEnd)
 
 	// Aggregate the window.
